@@ -175,7 +175,8 @@ func runC02SimulatedMining(c *core.Ctx) {
 		panic(err)
 	}
 	node := tree.Genesis
-	clockMode := t.Draw(5) // 0 steady, 1 jittery, 2 ties, 3 backwards jumps, 4 fast/slow regimes
+	clockMode := t.Draw(6) // 0 steady, 1 jittery, 2 ties, 3 backwards jumps, 4 fast/slow regimes, 5 absurd clocks
+	farLeft, farTime := 0, uint32(0)
 	total := 150 + t.Draw(120)
 	c.Event("simulated mining base-bits=%08x clock-mode=%d blocks=%d", baseBits, clockMode, total)
 	nextTime := func(prev uint32, i int) uint32 {
@@ -200,6 +201,23 @@ func runC02SimulatedMining(c *core.Ctx) {
 				return prev - d
 			}
 			return prev + uint32(t.Draw(2400))
+		case 5:
+			// miners with absurd clocks: one to three consecutive blocks stamped decades away from the
+			// honest clock (2^31 seconds and more, either direction), then back; nothing in
+			// ProcessHeader bounds a header's timestamp
+			honest := ts + uint32(i)*600
+			if farLeft > 0 {
+				farLeft--
+				c.Probe("timestamp-far-jump")
+				return farTime + uint32(t.Draw(100))
+			}
+			if t.Chance(1, 20) {
+				farLeft = t.Draw(3)
+				farTime = []uint32{0xf0000000, honest + 0x80000000, honest + 0x7fffff00, 1000, honest - 0x50000000}[t.Draw(5)]
+				c.Probe("timestamp-far-jump")
+				return farTime
+			}
+			return honest
 		default:
 			if (i/40)%2 == 0 {
 				return prev + uint32(1+t.Draw(120))
@@ -323,13 +341,13 @@ func runC02Bits(c *core.Ctx) {
 func init() {
 	core.Register(&core.Property{
 		ID: "C02", Engine: "S", Level: "exploration",
-		Rule: "each run is one of three sequential worlds. (a) real chain: 160 to 860 (thorough: all ~2000/~840) real mainnet headers from the two fixture files go through ProcessHeader with difficulty ON (after the 150 headers the window needs); every real header must be accepted and an independent implementation of the 144 block algorithm must give the chain's own bits; at tape-chosen points a single-field mutant of the next real header (nonce, bits mantissa +-1, bits exponent, timestamp, merkle root, version) or an impostor that passes its own easy proof of work is offered first and must get the reference verdict and not become known; in some runs a competing branch with more claimed work is planted a few blocks below the tip so that the following real headers extend a branch that is not the most-work one. (b) simulated mining: miners with faulty clocks (steady, jitter, ties among consecutive blocks, backwards jumps, fast/slow regimes) extend a real headers.Branch for 150-270 blocks at 5 difficulty levels with self-consistent bits, with forks started inside the 147 block window; Branch.Target->ConvertToBits must equal the reference algorithm for every new height on the main branch, at the fork point and on the fork. (c) bits encodings: headers with exponent byte 0..255 x 7 mantissa classes are submitted after genesis with difficulty ON: never a crash, and canonical encodings get the reference verdict (hash <= target). non-trivial = every run of (b) and (c), runs of (a) with at least one mutant; distinct = distinct hash of the canonical event log",
+		Rule: "each run is one of three sequential worlds. (a) real chain: 160 to 860 (thorough: all ~2000/~840) real mainnet headers from the two fixture files go through ProcessHeader with difficulty ON (after the 150 headers the window needs); every real header must be accepted and an independent implementation of the 144 block algorithm must give the chain's own bits; at tape-chosen points a single-field mutant of the next real header (nonce, bits mantissa +-1, bits exponent, timestamp, merkle root, version) or an impostor that passes its own easy proof of work is offered first and must get the reference verdict and not become known; in some runs a competing branch with more claimed work is planted a few blocks below the tip so that the following real headers extend a branch that is not the most-work one. (b) simulated mining: miners with faulty clocks (steady, jitter, ties among consecutive blocks, backwards jumps, fast/slow regimes, absurd clocks: 1-3 consecutive blocks stamped 2^31 seconds and more away from the honest clock in either direction) extend a real headers.Branch for 150-270 blocks at 5 difficulty levels with self-consistent bits, with forks started inside the 147 block window; Branch.Target->ConvertToBits must equal the reference algorithm for every new height on the main branch, at the fork point and on the fork. (c) bits encodings: headers with exponent byte 0..255 x 7 mantissa classes are submitted after genesis with difficulty ON: never a crash, and canonical encodings get the reference verdict (hash <= target). non-trivial = every run of (b) and (c), runs of (a) with at least one mutant; distinct = distinct hash of the canonical event log",
 		Real: []string{"headers.Repository.ProcessHeader with difficulty on (real code)", "headers.Branch.Target / MedianTimeAndWork (real code)", "pkg/bitcoin compact bits and work conversion, pkg/wire WorkIsValid (real dependency code)"},
 		Stub: []string{"storage -> simstore", "miners and their clocks -> simulator"},
 		Assumptions: []string{"the arithmetic core is a pure function of the branch history; the simulator contributes the histories (clock faults, fork placement) and sampled inputs, it does not enumerate the 2^32 bits encodings or all 147-header windows",
 			"real proof of work cannot be mined offline, so simulated histories are checked through Branch.Target (exported) rather than through ProcessHeader"},
 		ProbeNames: []string{"real-chain-run", "mutant:nonce", "mutant:bits-mantissa+1", "mutant:bits-mantissa-1", "mutant:bits-exponent", "mutant:timestamp", "mutant:merkle-root", "mutant:version", "mutant:easy-bits", "easy-bits-impostor-passes-own-pow", "real-headers-on-non-longest-branch",
-			"daa-compared", "timestamp-tie", "timestamp-backwards", "slow-regime", "fork-inside-window", "bits-encoding-submitted", "non-canonical-bits"},
+			"daa-compared", "timestamp-tie", "timestamp-backwards", "timestamp-far-jump", "slow-regime", "fork-inside-window", "bits-encoding-submitted", "non-canonical-bits"},
 		Run:          runC02,
 		QuickSeconds: 25, ThoroughSeconds: 900, MinRuns: 200, BatchSize: 20, RunTimeoutSeconds: 240,
 	})
